@@ -737,6 +737,11 @@ func (e2eFamily) Exec(id int, raw json.RawMessage) Case {
 		t, ob := step(si, o)
 		terms = append(terms, t)
 		obsAll = append(obsAll, ob)
+		for _, t0 := range noticeAt {
+			if time.Since(t0) > 2500*time.Millisecond {
+				voided = true // the step ran into the time at which a delayed removal fires
+			}
+		}
 	}
 	if len(obsAll) > 60 {
 		obsAll = append(obsAll[:60], fmt.Sprintf("... %d more steps", len(obsAll)-60))
